@@ -26,7 +26,8 @@ def build(policy):
     ids = itertools.count()
 
     def tagit(el, kv):
-        el["EDIF.identifier"] = "i%d" % next(ids)
+        k_ = next(ids)
+        el["EDIF.identifier"] = ("Id%d" if k_ % 2 else "i%d") % k_     # (some carry capital letters)
         el["k"] = kv
         return el
 
@@ -59,13 +60,24 @@ def build(policy):
             # a history: one of the two naming keys was popped again (the other must stay findable)
             for el in (p, c, x):
                 el.pop("EDIF.identifier" if nm_ == "A" else ".NAME")
+    # a one-bit port / cable that is an array based at 3: its only bit is named sel[3]
+    sp = da.create_port(name="sel", pins=1)
+    sc = da.create_cable(name="sel", wires=1)
+    for el in (sp, sc):
+        el.is_scalar = False
+        el.lower_index = 3
+        tagit(el, "w")
+    sc.wires[0].connect_pin(sp.pins[0])
+    gone = []
     if renamed:
         # a history of renames (query -> edit -> query): r0 becomes q9; a goes away and comes back; identifiers too
         for grp in (da.ports, da.cables, da.children):
             for el in list(grp):
+                if el.name in ("r0", "A"):
+                    gone.append(el["EDIF.identifier"])
+                    el["EDIF.identifier"] = el["EDIF.identifier"] + "x"
                 if el.name == "r0":
                     el.name = "q9"
-                    el["EDIF.identifier"] = el["EDIF.identifier"] + "x"
                 elif el.name == "a":
                     el.name = "tmp_a"
                     el.name = "a"
@@ -74,7 +86,7 @@ def build(policy):
     mid.create_child(name="ab", reference=da)
     n.top_instance = mid
     n.top_instance.name = "top"
-    return n, {"la": la, "lA": lA, "da": da, "leaf": leaf, "mid": mid}
+    return n, {"la": la, "lA": lA, "da": da, "leaf": leaf, "mid": mid, "gone": gone}
 
 
 def roots(n, h):
@@ -220,7 +232,7 @@ def worker(case):
                     if v:
                         pats |= {v, v.swapcase(), v[:1] + "*", v[:-1] + "?", "?" * len(v)}
                 pats |= set([v for v in vals if "[" in v][:8])   # names carrying a bus index
-                pats |= {"zz", "*", "a*", "A*", "r0", "q9", "tmp_a"}
+                pats |= {"zz", "*", "a*", "A*", "r0", "q9", "tmp_a"} | set(h.get("gone", ()))
                 single = sorted(pats)
                 multi = [("a", "a*"), ("a*", "a"), ("a", "A"), ("a", "a"), ("zz", "a"), ("r[0]", "a*"), ("a*", "r[0]"), ("r[0]", "r0")]
                 for v in [x for x in vals if x][-2:]:
